@@ -1186,7 +1186,7 @@ def _localise_cache(f, uname, cls):
     return new
 
 
-def check_fetch(ctx, rel, cls, cname):
+def check_fetch(ctx, rel, cls, cname, repo=None):
     """cached = cache.get(name); computed only when cached is None, from the
     object's own data; stored under the same name; every exit returns the
     cached value or, after computing, the computed one.  if-form and
@@ -1200,6 +1200,10 @@ def check_fetch(ctx, rel, cls, cname):
     if len(params) != 3:
         raise AnalysisError(f"{cname}._fetch_ufunc_attr signature changed")
     _, uname, ufunc = params
+    if repo is not None:
+        # a body that was moved into a private helper is followed; the
+        # helper's parameters that alias `self.<attr>` read as the attribute
+        f = _deref_aliases(expand_private_calls(repo, rel, f))
     f = _plain_statements(f, cls)
     keys = _cache_lookup_keys(f)
     f = _localise_cache(f, uname, cls)
@@ -1333,16 +1337,18 @@ def _is_empty_value(v):
         and not v.args and not v.keywords)
 
 
-def _memo_attrs(cls):
-    """memo attributes: set in __init__, (re)filled lazily elsewhere"""
-    init = [f for f in cls.body if isinstance(f, ast.FunctionDef)
+def _memo_attrs(cls, funcs=None):
+    """memo attributes: set in __init__, (re)filled lazily elsewhere
+    (`funcs`: the methods after helper expansion / alias resolution)"""
+    body = list(funcs) if funcs is not None else cls.body
+    init = [f for f in body if isinstance(f, ast.FunctionDef)
             and f.name == "__init__"]
     if not init:
         return set()
     in_init = {t.attr for n in walk(init[0]) if isinstance(n, ast.Assign)
                for t in n.targets if is_self_attr(t)}
     filled = set()
-    for f in cls.body:
+    for f in body:
         if isinstance(f, ast.FunctionDef) and f.name != "__init__":
             for n in walk(f):
                 if isinstance(n, ast.Assign):
@@ -1371,12 +1377,15 @@ def _resets_of(func, attr):
     return out
 
 
-def _memo_resets(ctx, cls, rel):
+def _memo_resets(ctx, cls, rel, repo=None):
     """reset-set ⊇ memo-set inside a lazy feature wrapper: a memo B whose
     entries are computed from memo A (directly or through a method that
     reads A) must be emptied wherever A is emptied"""
-    memos = _memo_attrs(cls)
     methods = {f.name: f for f in cls.body if isinstance(f, ast.FunctionDef)}
+    if repo is not None:
+        methods = {k: _deref_aliases(expand_private_calls(
+            repo, rel, f, keep=tuple(methods))) for k, f in methods.items()}
+    memos = _memo_attrs(cls, methods.values())
     reads = {name: {n.attr for n in walk(f) if is_self_attr(n)}
              for name, f in methods.items()}
     derived = {}        # B -> set of A
@@ -1491,11 +1500,50 @@ def _refresh_survivors(ctx, repo, af):
                label="refresh keeps no old child object")
 
 
+def _deref_aliases(func):
+    """copy of `func` in which a local that is bound exactly once, to an
+    attribute of `self` (`events = self._events`), is replaced by that
+    attribute wherever it is read – item stores through the alias
+    (`events[k] = v`) then read as stores into the attribute.  The copy
+    hangs under the same class, construct keys are unchanged."""
+    stores = {}
+    for n in walk(func):
+        if isinstance(n, ast.Name) and isinstance(n.ctx, (ast.Store,
+                                                          ast.Del)):
+            stores[n.id] = stores.get(n.id, 0) + 1
+    params = {a.arg for a in func.args.args + func.args.kwonlyargs}
+    mapping = {}
+    for n in walk(func):
+        if isinstance(n, ast.Assign) and len(n.targets) == 1 \
+                and isinstance(n.targets[0], ast.Name) \
+                and is_self_attr(n.value) \
+                and stores.get(n.targets[0].id) == 1 \
+                and n.targets[0].id not in params:
+            mapping[n.targets[0].id] = n.value
+    if not mapping:
+        return func
+    # the aliased attribute itself must not be re-bound in the function
+    rebound = {t.attr for n in walk(func) if isinstance(n, ast.Assign)
+               for t in n.targets if is_self_attr(t)}
+    mapping = {k: v for k, v in mapping.items() if v.attr not in rebound}
+    new = _clone(func)
+
+    class T(ast.NodeTransformer):
+        def visit_Name(self, node):
+            if isinstance(node.ctx, ast.Load) and node.id in mapping:
+                return ast.copy_location(_clone(mapping[node.id]), node)
+            return node
+    T().visit(new)
+    ast.fix_missing_locations(new)
+    _relink(new, getattr(func, "parent", None))
+    return new
+
+
 def r203(ctx, repo, cstores):
     h5 = repo.cls(EV, "H5ScalarEvent")
     ch = repo.cls(HE, "ChildScalar")
-    check_fetch(ctx, EV, h5, "H5ScalarEvent")
-    check_fetch(ctx, HE, ch, "ChildScalar")
+    check_fetch(ctx, EV, h5, "H5ScalarEvent", repo)
+    check_fetch(ctx, HE, ch, "ChildScalar", repo)
     # seeds
     ini = repo.func(EV, "H5ScalarEvent.__init__")
     seed = [n for n in walk(ini) if isinstance(n, ast.Assign)
@@ -1526,7 +1574,9 @@ def r203(ctx, repo, cstores):
            f"of the unfiltered parent", node=seed[0],
            label="child cache starts empty")
     # hierarchy refresh discards the children
-    af = wfunc(repo, HB, "RTDC_Hierarchy.apply_filter")
+    # locals that merely alias `self.hparent` / `self._events` are read as
+    # the attribute they stand for
+    af = _deref_aliases(wfunc(repo, HB, "RTDC_Hierarchy.apply_filter"))
     ok = any(is_self_attr(c.func.value, "_events")
              for c in find_calls(af, attr="clear")) or any(
         isinstance(n, ast.Assign) and any(
@@ -1538,7 +1588,7 @@ def r203(ctx, repo, cstores):
            "reported", node=af, label="refresh discards child caches")
     _refresh_survivors(ctx, repo, af)
     for rel_, cname_ in ((EV, "H5ScalarEvent"), (HE, "ChildScalar")):
-        _memo_resets(ctx, repo.cls(rel_, cname_), rel_)
+        _memo_resets(ctx, repo.cls(rel_, cname_), rel_, repo)
     rj = repo.func(HB, "RTDC_Hierarchy.rejuvenate")
     ok = any(is_self_attr(c.func, "apply_filter")
              for c in find_calls(rj, attr="apply_filter"))
@@ -2169,6 +2219,49 @@ def _extrema_walrus(src):
         "                    else ufunc(dset))\n") + src[b + len(last):]
 
 
+def _refresh_with_aliases(src):
+    a = src.find("    def apply_filter(self, *args, **kwargs):")
+    b = src.find("    def get_root_parent(self):", a)
+    if a < 0 or b < 0:
+        return src
+    body = src[a:b]
+    head = "        # Copy event data from hierarchy parent\n"
+    if body.count(head) != 1:
+        return src
+    body = body.replace(head, "        events = self._events\n" + head)
+    first = body.index("        events = self._events\n") + len(
+        "        events = self._events\n")
+    body = body[:first] + body[first:].replace("self._events", "events")
+    return src[:a] + body + src[b:]
+
+
+def _fetch_in_module_helper(src):
+    old = ("        val = self._ufunc_attrs.get(uname, None)\n"
+           "        if val is None:\n"
+           "            val = ufunc(self.__array__())\n"
+           "            self._ufunc_attrs[uname] = val\n"
+           "        return val\n")
+    if src.count(old) != 1:
+        return src
+    return src.replace(
+        old, "        return _fetch_cached_ufunc_attr(\n"
+        "            ufunc_attrs=self._ufunc_attrs, get_array=self.__array__,\n"
+        "            uname=uname, ufunc=ufunc)\n") + (
+        "\n\ndef _fetch_cached_ufunc_attr(ufunc_attrs, get_array, uname, "
+        "ufunc):\n"
+        "    val = ufunc_attrs.get(uname, None)\n"
+        "    if val is None:\n"
+        "        val = ufunc(get_array())\n"
+        "        ufunc_attrs[uname] = val\n"
+        "    return val\n")
+
+
+def _fetch_in_module_helper_wrong_key(src):
+    return _fetch_in_module_helper(src).replace(
+        "        ufunc_attrs[uname] = val\n",
+        '        ufunc_attrs["mean"] = val\n')
+
+
 MUTANTS = [
     # R20.1
     ("writer: max of a block with np.max", WR,
@@ -2223,6 +2316,8 @@ MUTANTS = [
      "R20.3"),
     ("summary table maps 'min' to np.nanmax", EV,
      _summary_table_min_is_max, "R20.2"),
+    ("module-level fetch helper caches under a fixed name", EV,
+     _fetch_in_module_helper_wrong_key, "R20.3"),
     ("H5ScalarEvent caches under a fixed name", EV,
      ("self._ufunc_attrs[uname] = val", 'self._ufunc_attrs["min"] = val'),
      "R20.3"),
@@ -2404,6 +2499,11 @@ TWINS = [
     ("stored extremum found by membership test", WR,
      ("                if val_a is not None:\n",
       "                if uname in dset.attrs:\n")),
+    # round 5
+    ("apply_filter works on a local alias of self._events", HB,
+     _refresh_with_aliases),
+    ("_fetch_ufunc_attr delegates to a module-level helper", EV,
+     _fetch_in_module_helper),
 ]
 
 # mutants that re-introduce the repaired defects (apply to the fixed tree)
